@@ -382,6 +382,50 @@ func slotOffsets(tn string, a assign) map[string][2]int {
 	return out
 }
 
+// refImage assembles the image the layout table prescribes for an assignment (fields in order, integers big-endian,
+// fixed slots NUL-padded, C-strings terminated, triplets tag/length/value), with the length prefix - without the
+// library's encoder.  Used for relay inputs only; TLC judges what the library makes of them.
+func refImage(tn string, a assign) []byte {
+	var b []byte
+	if tn != "cmpp.SubPduDeliveryContent" {
+		b = make([]byte, 4)
+	}
+	for _, f := range layouts[tn].Fields {
+		v := a[f.N]
+		switch f.K {
+		case "U", "N", "Z":
+			b = append(b, v.b...)
+		case "F":
+			slot := make([]byte, f.W)
+			copy(slot, v.b)
+			b = append(b, slot...)
+		case "FB":
+			b = append(b, v.b...)
+		case "FH":
+			b = append(b, v.b...)
+		case "C":
+			b = append(append(b, v.b...), 0)
+		case "L":
+			for _, x := range v.list {
+				slot := make([]byte, f.W)
+				copy(slot, x)
+				b = append(b, slot...)
+			}
+		case "B":
+			b = append(b, v.b...)
+		case "T", "O":
+			for _, x := range v.tlvs {
+				b = append(b, byte(x.T>>8), byte(x.T), byte(len(x.V)>>8), byte(len(x.V)))
+				b = append(b, x.V...)
+			}
+		}
+	}
+	if tn != "cmpp.SubPduDeliveryContent" {
+		setPrefix(b)
+	}
+	return b
+}
+
 func setPrefix(b []byte) {
 	if len(b) >= 4 {
 		n := len(b)
@@ -396,6 +440,42 @@ func genRelay(g *genCtx, r *rand.Rand, emit func(Case)) {
 	nr := 6
 	if g.thorough() {
 		nr = 150
+	}
+	// the far end of the scope: the largest destination counts with the longest bodies (whatever a decoder accepts
+	// must be encodable again)
+	for _, tn := range typeNames {
+		var lf, bf *fieldSpec
+		for i := range layouts[tn].Fields {
+			f := &layouts[tn].Fields[i]
+			if f.K == "L" {
+				lf = f
+			}
+			if f.K == "B" {
+				bf = f
+			}
+		}
+		if lf == nil {
+			continue
+		}
+		for _, n := range []int{99, 100, 101, 254, 255} {
+			for _, bl := range []int{0, 139, 140, 161, 255} {
+				if !g.thorough() && (n+bl)%3 != 0 {
+					continue
+				}
+				a := defaultAssign(r, tn, true)
+				l := make([][]byte, n)
+				for i := range l {
+					l[i] = nulFree(r, lf.W)
+				}
+				a[lf.N] = fval{list: l}
+				if bf != nil {
+					a[bf.N] = fval{b: randBytes(r, bl)}
+				}
+				fixCounts(tn, a)
+				// the image is assembled from the layout table, not by the library's encoder
+				relay(tn, refImage(tn, a))
+			}
+		}
 	}
 	for _, tn := range typeNames {
 		for it := 0; it < nr; it++ {
